@@ -368,3 +368,215 @@ Proof.
   intros. unfold recs, slits. apply (forestC prog).
   apply Forall_forall. intros t _. apply all_treeC.
 Qed.
+
+(* ------------------------------------------------------------------ D: the two dictionaries *)
+Lemma am_get_app : forall (V : Type) (m : amap V) k v k',
+  am_get (am_app m k v) k' = if lhs_eqb k' k then am_get m k' ++ [v] else am_get m k'.
+Proof.
+  induction m as [|[k0 vs] m IH]; intros k v k'; cbn.
+  - destruct (lhs_eqb k' k); reflexivity.
+  - destruct (lhs_eqb k k0) eqn:E; cbn.
+    + apply lhs_eqb_eq in E. subst k0. destruct (lhs_eqb k' k); reflexivity.
+    + destruct (lhs_eqb k' k0) eqn:E2.
+      * apply lhs_eqb_eq in E2. subst k'. rewrite lhs_eqb_sym, E. reflexivity.
+      * apply IH.
+Qed.
+
+Lemma am_keys_app : forall (V : Type) (m : amap V) k v l,
+  In l (map fst (am_app m k v)) <-> l = k \/ In l (map fst m).
+Proof.
+  induction m as [|[k0 vs] m IH]; intros k v l; cbn.
+  - intuition.
+  - destruct (lhs_eqb k k0) eqn:E; cbn.
+    + apply lhs_eqb_eq in E. subst k0. intuition.
+    + rewrite IH. intuition.
+Qed.
+
+Definition the_sel (ls : list lit) : bexpr :=
+  match sel_of_lits ls with Some s => s | None => BVar 0 end.
+Definition selpl (r : rcd) : bexpr * payload := (the_sel (r_lits r), r_pl r).
+Definition same (l : lhs) (r : rcd) : bool := lhs_eqb l (r_lhs r).
+
+Definition Rep (done : list rcd) (m : maps) : Prop :=
+  (forall l, am_get (fst m) l = map selpl (filter (same l) done)) /\
+  (forall l, am_get (snd m) l = map r_lits (filter (same l) done)) /\
+  (forall l, In l (map fst (fst m)) <-> In l (map r_lhs done)).
+
+(* x is earlier than y *)
+Definition compat (x y : rcd) : bool :=
+  negb (lhs_eqb (r_lhs x) (r_lhs y)) || syn_excl (r_lits y) (r_lits x).
+Definition nonempty (ls : list lit) : bool := match ls with [] => false | _ => true end.
+
+Fixpoint ok_all (done rs : list rcd) : bool :=
+  match rs with
+  | [] => true
+  | r :: rest =>
+      nonempty (r_lits r) && forallb (fun x => compat x r) done && ok_all (done ++ [r]) rest
+  end.
+
+Lemma existsb_ext' : forall (A : Type) (f g : A -> bool) l,
+  (forall x, f x = g x) -> existsb f l = existsb g l.
+Proof. intros A f g l H. induction l as [|x l IH]; cbn; [reflexivity|]. rewrite H, IH. reflexivity. Qed.
+
+Lemma in_conflict_syn : forall a b, in_conflict a b = negb (syn_excl a b).
+Proof.
+  intros a b. unfold in_conflict, syn_excl. f_equal.
+  apply existsb_ext'. intro la. apply existsb_ext'. intro lb.
+  unfold opposite. destruct la as [pa ba], lb as [pb bb]. cbn. destruct ba, bb; reflexivity.
+Qed.
+
+Lemma sel_some : forall ls a, exists s, fold_left (fun s l => and_opt s (lit_expr l)) ls (Some a) = Some s.
+Proof.
+  induction ls as [|l ls IH]; intro a; cbn.
+  - exists a. reflexivity.
+  - apply IH.
+Qed.
+
+Lemma sel_none_iff : forall ls, sel_of_lits ls = None <-> nonempty ls = false.
+Proof.
+  intros [|l ls]; cbn.
+  - split; reflexivity.
+  - unfold sel_of_lits. cbn. destruct (sel_some ls (lit_expr l)) as [s Hs]. rewrite Hs.
+    split; discriminate.
+Qed.
+
+Lemma conflict_scan : forall r done,
+  existsb (in_conflict (r_lits r)) (map r_lits (filter (same (r_lhs r)) done))
+  = negb (forallb (fun x => compat x r) done).
+Proof.
+  intros r done. induction done as [|x done IH]; cbn; [reflexivity|].
+  unfold same at 1, compat at 1. rewrite (lhs_eqb_sym (r_lhs x) (r_lhs r)).
+  destruct (lhs_eqb (r_lhs r) (r_lhs x)); cbn.
+  - rewrite IH, in_conflict_syn, negb_andb. reflexivity.
+  - exact IH.
+Qed.
+
+Lemma filter_snoc : forall (A : Type) (f : A -> bool) l x,
+  filter f (l ++ [x]) = if f x then filter f l ++ [x] else filter f l.
+Proof.
+  intros. rewrite filter_app. cbn. destruct (f x); [reflexivity|apply app_nil_r].
+Qed.
+
+Lemma build_m_char : forall r done m, Rep done m ->
+  match build_m r m with
+  | Some m' => nonempty (r_lits r) && forallb (fun x => compat x r) done = true /\ Rep (done ++ [r]) m'
+  | None => nonempty (r_lits r) && forallb (fun x => compat x r) done = false
+  end.
+Proof.
+  intros r done [pm cm] (Hp & Hc & Hk). unfold build_m. cbn [fst snd] in *.
+  destruct (sel_of_lits (r_lits r)) as [sel|] eqn:Es.
+  - assert (Hne : nonempty (r_lits r) = true).
+    { destruct (nonempty (r_lits r)) eqn:E; [reflexivity|]. apply sel_none_iff in E. congruence. }
+    rewrite Hc, conflict_scan, Hne. cbn [andb].
+    destruct (forallb (fun x => compat x r) done); cbn; [|reflexivity].
+    split; [reflexivity|]. unfold Rep; cbn [fst snd]. repeat split.
+    + intro l. rewrite am_get_app, filter_snoc, Hp.
+      change (same l r) with (lhs_eqb l (r_lhs r)).
+      destruct (lhs_eqb l (r_lhs r)); [|reflexivity].
+      rewrite map_app. cbn [map]. f_equal. unfold selpl, the_sel. rewrite Es. reflexivity.
+    + intro l. rewrite am_get_app, filter_snoc, Hc.
+      change (same l r) with (lhs_eqb l (r_lhs r)).
+      destruct (lhs_eqb l (r_lhs r)); [|reflexivity].
+      rewrite map_app. reflexivity.
+    + rewrite am_keys_app, map_app, in_app_iff, Hk. cbn. intuition.
+    + rewrite am_keys_app, map_app, in_app_iff, Hk. cbn. intuition.
+  - apply sel_none_iff in Es. rewrite Es. reflexivity.
+Qed.
+
+Lemma build_all_char : forall rs done m, Rep done m ->
+  match build_all rs m with
+  | Some m' => ok_all done rs = true /\ Rep (done ++ rs) m'
+  | None => ok_all done rs = false
+  end.
+Proof.
+  induction rs as [|r rs IH]; intros done m HR; cbn [build_all ok_all].
+  - split; [reflexivity|]. rewrite app_nil_r. exact HR.
+  - pose proof (build_m_char r done m HR) as Hb.
+    destruct (build_m r m) as [m'|].
+    + destruct Hb as [Hok HR']. rewrite Hok. cbn [andb].
+      specialize (IH (done ++ [r]) m' HR').
+      destruct (build_all rs m') as [m''|].
+      * destruct IH as [Hok2 HR2]. split; [exact Hok2|].
+        rewrite <- app_assoc in HR2. exact HR2.
+      * exact IH.
+    + rewrite Hb. reflexivity.
+Qed.
+
+Lemma Rep_nil : Rep [] ([], []).
+Proof. unfold Rep; cbn. repeat split; intros; try reflexivity; intuition. Qed.
+
+(* ok_all in terms of the specification's booleans *)
+Fixpoint pw (rs : list rcd) : bool :=
+  match rs with
+  | [] => true
+  | x :: r => forallb (fun y => compat x y) r && pw r
+  end.
+
+Definition cross (done rs : list rcd) : bool :=
+  forallb (fun y => forallb (fun x => compat x y) done) rs.
+
+Lemma forallb_andb : forall (A : Type) (f g : A -> bool) l,
+  forallb (fun y => f y && g y) l = forallb f l && forallb g l.
+Proof.
+  induction l as [|x l IH]; cbn; [reflexivity|]. rewrite IH.
+  destruct (f x), (g x), (forallb f l), (forallb g l); reflexivity.
+Qed.
+
+Lemma forallb_ext' : forall (A : Type) (f g : A -> bool) l,
+  (forall x, f x = g x) -> forallb f l = forallb g l.
+Proof. intros A f g l H. induction l as [|x l IH]; cbn; [reflexivity|]. rewrite H, IH. reflexivity. Qed.
+
+Lemma cross_snoc : forall done r rs,
+  cross (done ++ [r]) rs = cross done rs && forallb (fun y => compat r y) rs.
+Proof.
+  intros. unfold cross. rewrite <- forallb_andb. apply forallb_ext'. intro y.
+  rewrite forallb_app. cbn. rewrite andb_true_r. reflexivity.
+Qed.
+
+Lemma ok_all_split : forall rs done,
+  ok_all done rs = forallb (fun r => nonempty (r_lits r)) rs && cross done rs && pw rs.
+Proof.
+  induction rs as [|r rs IH]; intro done; [reflexivity|].
+  cbn [ok_all forallb pw]. rewrite IH, cross_snoc. unfold cross at 2. cbn [forallb].
+  fold (cross done rs).
+  destruct (nonempty (r_lits r)), (forallb (fun x => compat x r) done),
+    (forallb (fun r0 => nonempty (r_lits r0)) rs), (cross done rs),
+    (forallb (fun y => compat r y) rs), (pw rs); reflexivity.
+Qed.
+
+Lemma cross_nil : forall rs, cross [] rs = true.
+Proof. induction rs as [|r rs IH]; cbn; [reflexivity|exact IH]. Qed.
+
+Lemma forallb_map' : forall (A B : Type) (f : B -> bool) (g : A -> B) l,
+  forallb f (map g l) = forallb (fun x => f (g x)) l.
+Proof. induction l as [|x l IH]; cbn; [reflexivity|]. rewrite IH. reflexivity. Qed.
+
+Lemma guarded_recs : forall rs, guarded (map proj_sl rs) = forallb (fun r => nonempty (r_lits r)) rs.
+Proof.
+  intro rs. unfold guarded. rewrite forallb_map'. apply forallb_ext'. intro r.
+  unfold proj_sl, nonempty. cbn. reflexivity.
+Qed.
+
+Lemma pairwise_recs : forall rs, pairwise_excl (map proj_sl rs) = pw rs.
+Proof.
+  induction rs as [|x rs IH]; cbn [map pairwise_excl pw]; [reflexivity|].
+  rewrite IH, forallb_map'. reflexivity.
+Qed.
+
+Lemma ok_all_spec : forall prog, ok_all [] (recs prog) = spec_accepts prog.
+Proof.
+  intro prog. rewrite ok_all_split, cross_nil, andb_true_r.
+  unfold spec_accepts. rewrite <- recs_slits, guarded_recs, pairwise_recs. reflexivity.
+Qed.
+
+(* the machine on a whole program *)
+Lemma elab_forest_char : forall prog,
+  match elab_forest prog init_st with
+  | Some s => spec_accepts prog = true /\ Rep (recs prog) (pmap s, cmap s)
+  | None => spec_accepts prog = false
+  end.
+Proof.
+  intro prog. rewrite elab_forest_recs, <- ok_all_spec.
+  pose proof (build_all_char (recs prog) [] ([], []) Rep_nil) as H.
+  destruct (build_all (recs prog) ([], [])) as [[pm cm]|]; cbn; exact H.
+Qed.
